@@ -486,7 +486,7 @@ __result = __json.dumps({call_node.as_string()})
 
     except subprocess.TimeoutExpired:
         process.kill()
-        process.communicate()
+        process.wait()
         raise CompilerError(
             f"Timeout during evaluating constexpr function call {call_node.as_string()}",
             call_node,
